@@ -671,3 +671,184 @@ Proof.
   pose proof (close_HI (t_run ops) H) as Hc. destruct (active_insts (events (fst (close_table (t_run ops))))) as [|i l] eqn:A; [reflexivity|exfalso].
   destruct (ao_present _ (h_ao _ Hc) i) as [s [Is _]]; [rewrite A; left; reflexivity|]. rewrite E in Is. destruct Is.
 Qed.
+
+(* ================= Part F: load and unload notifications alternate ================= *)
+Definition ev_ok (act : list nat) (e : ev) : Prop :=
+  match e with ELoad i => ~ In i act | EUnload i => In i act | _ => True end.
+(* every load notification finds the instance inactive, every unload notification finds it active *)
+Definition wb (es : list ev) : Prop := forall p e q, es = p ++ e :: q -> ev_ok (active_insts p) e.
+
+Lemma wb_app ev es : wb ev -> (forall p e q, es = p ++ e :: q -> ev_ok (active_insts (ev ++ p)) e) -> wb (ev ++ es).
+Proof.
+  intros W H p e q E. apply app_eq_app in E. destruct E as [l [[E1 E2]|[E1 E2]]].
+  - destruct l as [|x l].
+    + cbn in E2. rewrite app_nil_r in E1. subst p. specialize (H [] e q (eq_sym E2)). rewrite app_nil_r in H. exact H.
+    + cbn in E2. injection E2 as <- E2. apply (W p e l). exact E1.
+  - subst p. apply (H l e q). exact E2.
+Qed.
+
+Lemma in_loads i es : In (ELoad i) es -> In i (loads es).
+Proof. intros H. unfold loads. apply in_flat_map. exists (ELoad i). split; [exact H|left; reflexivity]. Qed.
+Lemma in_unloads i es : In (EUnload i) es -> In i (unloads es).
+Proof. intros H. unfold unloads. apply in_flat_map. exists (EUnload i). split; [exact H|left; reflexivity]. Qed.
+Lemma loads_app a b : loads (a ++ b) = loads a ++ loads b. Proof. apply flat_map_app. Qed.
+Lemma unloads_app a b : unloads (a ++ b) = unloads a ++ unloads b. Proof. apply flat_map_app. Qed.
+
+Lemma NoDup_app_mid {A} (a b : list A) x : NoDup (a ++ x :: b) -> ~ In x a.
+Proof.
+  induction a as [|y a IH]; cbn; intros ND; [intros []|]. inversion ND as [|? ? Ny ND']; subst. intros [E|I].
+  - subst y. apply Ny. apply in_or_app. right. left. reflexivity.
+  - exact (IH ND' I).
+Qed.
+
+Lemma subseq_nodup {A} (l' l : list A) : subseq l' l -> NoDup l -> NoDup l'.
+Proof.
+  induction 1 as [|x l' l S IH|x l' l S IH]; intros ND; [constructor| |]; inversion ND as [|? ? Nx ND']; subst; [apply IH; exact ND'|].
+  constructor; [|apply IH; exact ND']. intros I. apply Nx. apply (subseq_in _ _ _ S). exact I.
+Qed.
+
+Lemma NoDup_map_inj {A B} (f : A -> B) l : NoDup l -> (forall a b, In a l -> In b l -> f a = f b -> a = b) -> NoDup (map f l).
+Proof.
+  induction l as [|x l IH]; intros ND Inj; [constructor|]. inversion ND as [|? ? Nx ND']; subst. cbn. constructor.
+  - intros I. apply in_map_iff in I. destruct I as [y [E Iy]]. assert (y = x) by (apply Inj; [right; exact Iy|left; reflexivity|exact E]). subst y. contradiction.
+  - apply IH; [exact ND'|]. intros a b Ia Ib. apply Inj; right; assumption.
+Qed.
+
+Lemma NoDup_of_map {A B} (f : A -> B) l : NoDup (map f l) -> NoDup l.
+Proof.
+  induction l as [|x l IH]; cbn; intros ND; [constructor|]. inversion ND as [|? ? Nx ND']; subst. constructor; [|apply IH; exact ND'].
+  intros I. apply Nx. apply in_map. exact I.
+Qed.
+
+Lemma linked_insts_nodup st sb : NoDup (map s_inst (syms st)) -> In sb (syms st) -> NoDup (map s_inst (linked st sb)).
+Proof.
+  intros NI Isb. apply NoDup_map_inj.
+  - apply (NoDup_of_map s_id). apply linked_nodup.
+  - intros a b Ia Ib E. apply (same_inst_same st); auto; apply (linked_in_syms st sb); assumption.
+Qed.
+
+Lemma subseq_map {A B} (f : A -> B) l' l : subseq l' l -> subseq (map f l') (map f l).
+Proof. induction 1; cbn; constructor; assumption. Qed.
+
+Theorem add_wb st0 sb :
+  TI st0 -> NoDup (map s_inst (syms st0)) -> NoFail st0 -> AO st0 ->
+  ~ In (s_id sb) (map s_id (syms st0)) -> ~ In (s_inst sb) (map s_inst (syms st0)) -> s_fail sb = None ->
+  TI (linked_state st0 sb) -> wb (events st0) ->
+  wb (events (fst (load (linked_state st0 sb) sb))).
+Proof.
+  intros T0 NI0 NF0 A0 Fid Finst Fsb T2 W0. set (st2 := linked_state st0 sb) in *.
+  destruct (linked_state_shape st0 sb) as [Sy Ev]. fold st2 in Sy, Ev.
+  assert (Isb : In sb (syms st2)) by (rewrite Sy; apply in_or_app; right; left; reflexivity).
+  assert (X : Ext st0 st2 sb).
+  { split; [exact T0|exact T2| |].
+    - intros s. rewrite Sy, in_app_iff. cbn [In]. split; [intros [H|[H|[]]]; auto|intros [H|H]; auto].
+    - intros I. apply Fid. apply in_map. exact I. }
+  assert (NI2 : NoDup (map s_inst (syms st2))).
+  { rewrite Sy, map_app. cbn [map]. clear -NI0 Finst. induction (map s_inst (syms st0)) as [|x l IH]; cbn.
+    - constructor; [intros []|constructor].
+    - inversion NI0 as [|? ? Nx ND']; subst. constructor.
+      + intros I. apply in_app_or in I. destruct I as [I|[I|[]]]; [exact (Nx I)|]. apply Finst. left. symmetry. exact I.
+      + apply IH; [exact ND'|]. intros I. apply Finst. right. exact I. }
+  assert (NF2 : NoFail st2).
+  { intros s Is. rewrite Sy in Is. apply in_app_or in Is. destruct Is as [Is|[Is|[]]]; [apply NF0; exact Is|subst s; exact Fsb]. }
+  pose proof (load_ok st2 sb NF2) as LO. destruct (load_exactly st2 sb LO) as [es [E HL]].
+  destruct (life_fold_all activate not_unload (linked st2 sb) activate_no_unload st2 None) as [es' [E' NU]].
+  change (life_fold_from activate (linked st2 sb) (st2, None)) with (load st2 sb) in E'. rewrite E in E'. apply app_inv_head in E'. subst es'.
+  destruct (life_fold_sel activate loads (linked st2 sb) activate_sel st2 None) as [l' [SS EL]].
+  change (life_fold_from activate (linked st2 sb) (st2, None)) with (load st2 sb) in EL. rewrite E, loads_app in EL. apply app_inv_head in EL.
+  assert (NDL : NoDup (loads es)).
+  { rewrite EL. apply (subseq_nodup _ _ (subseq_map s_inst _ _ SS)). apply linked_insts_nodup; assumption. }
+  rewrite E, Ev. apply wb_app; [exact W0|]. intros p e q Es. destruct e as [i|i|i|i pn]; cbn [ev_ok]; try exact I.
+  - assert (NUp : Forall not_unload p) by (rewrite Es in NU; apply Forall_app in NU; tauto).
+    rewrite active_app, (act_loads p NUp). intros [H|H].
+    + (* active before: then its closure was present before, and nothing it reaches is new *)
+      destruct (ao_present _ A0 _ H) as [s' [Is' Es']].
+      assert (IL : In (ELoad i) es) by (rewrite Es; apply in_or_app; right; left; reflexivity).
+      apply HL in IL. destruct IL as [s [Il [Ei [R _]]]].
+      assert (Is : In s (syms st2)) by (apply (linked_in_syms st2 sb); assumption).
+      assert (s' = s) by (apply (same_inst_same st2); auto; [apply (x_syms _ _ _ X); left; exact Is'|congruence]). subst s'.
+      assert (C0 : closure_ok st0 s) by (apply (ao_iff _ A0 s Is'); rewrite Ei; exact H).
+      apply (reachable_reaches st2 sb (s_id s) T2 Isb) in R. destruct R as [s2 [Is2 [E2 R]]].
+      assert (s2 = s) by (apply (same_id_same st2); auto; apply (ti_ids _ T2)). subst s2.
+      destruct (reaches_path st2 T2 s sb R) as [Eq|[l [P Il']]].
+      * subst s. exact (x_new _ _ _ X Is').
+      * apply (closure_up_avoids st0 st2 sb X s Is' C0 l P). right. exact Il'.
+    + apply in_loads in H. rewrite Es, loads_app in NDL. cbn [loads flat_map app] in NDL. exact (NoDup_app_mid _ _ _ NDL H).
+  - rewrite Es in NU. apply Forall_app in NU. destruct NU as [_ NU]. inversion NU as [|? ? N _]. destruct N.
+Qed.
+
+Theorem free_wb st id : TI st -> NoDup (map s_inst (syms st)) -> NoFail st -> AO st -> wb (events st) -> wb (events (fst (free st id))).
+Proof.
+  intros T NI NF A W. destruct (find_sym st id) as [sb|] eqn:F.
+  2:{ unfold free. rewrite F. exact W. }
+  destruct (find_sym_in _ _ _ F) as [Isb Eid]. subst id.
+  destruct (free_shape st (s_id sb) sb F NF) as [_ [_ [es [EU EF]]]].
+  pose proof (unload_ok st sb NF) as UO. destruct (unload_exactly st sb UO) as [es2 [E2 HU]]. rewrite EU in E2. apply app_inv_head in E2. subst es2.
+  destruct (life_fold_all deactivate not_load (rev (linked st sb)) deactivate_no_load st None) as [es' [E' NL]].
+  change (life_fold_from deactivate (rev (linked st sb)) (st, None)) with (unload st sb) in E'. rewrite EU in E'. apply app_inv_head in E'. subst es'.
+  destruct (life_fold_sel deactivate unloads (rev (linked st sb)) deactivate_sel st None) as [l' [SS EL]].
+  change (life_fold_from deactivate (rev (linked st sb)) (st, None)) with (unload st sb) in EL. rewrite EU, unloads_app in EL. apply app_inv_head in EL.
+  assert (NDU : NoDup (unloads es)).
+  { rewrite EL. apply (subseq_nodup _ _ (subseq_map s_inst _ _ SS)). rewrite map_rev. apply NoDup_rev. apply linked_insts_nodup; assumption. }
+  rewrite EF, app_assoc. apply wb_app.
+  - apply wb_app; [exact W|]. intros p e q Es. destruct e as [i|i|i|i pn]; cbn [ev_ok]; try exact I.
+    + rewrite Es in NL. apply Forall_app in NL. destruct NL as [_ NL]. inversion NL as [|? ? N _]. destruct N.
+    + assert (NLp : Forall not_load p) by (rewrite Es in NL; apply Forall_app in NL; tauto).
+      rewrite active_app, (act_unloads p NLp). split.
+      * assert (IU : In (EUnload i) es) by (rewrite Es; apply in_or_app; right; left; reflexivity).
+        apply HU in IU. destruct IU as [s [Il [Ei [_ Ac]]]].
+        assert (Is : In s (syms st)) by (apply (linked_in_syms st sb); assumption).
+        rewrite <- Ei. apply (ao_iff _ A s Is). apply is_activated_iff_closure; [apply (ti_ids _ T)|exact Is|exact Ac].
+      * intros H. apply in_unloads in H. rewrite Es, unloads_app in NDU. cbn [unloads flat_map app] in NDU. exact (NoDup_app_mid _ _ _ NDU H).
+  - intros p e q Es. destruct (s_node sb).
+    + destruct p as [|x p]; [|destruct p; discriminate]. cbn in Es. injection Es as <- _. exact I.
+    + destruct p; discriminate.
+Qed.
+
+Definition HW (st : tstate) : Prop := HI st /\ wb (events st).
+
+Lemma free_HW st id : HW st -> HW (fst (free st id)).
+Proof. intros [H W]. split; [apply free_HI; exact H|]. destruct H as [T NI NF A]. apply free_wb; assumption. Qed.
+
+Lemma insert_HW st sb : HW st -> ok2_insert st sb -> HW (fst (insert st sb)).
+Proof.
+  intros HWs O. split; [apply insert_HI; [apply HWs|exact O]|].
+  destruct O as [[OKsb NFr] [Fi Ff]]. pose proof (free_HW st (s_id sb) HWs) as [H0 W0]. destruct HWs as [H _].
+  rewrite insert_unfold. pose proof (free_syms_exact st (s_id sb) (h_ti _ H)) as FS. pose proof (free_done_absent st (s_id sb) (h_ti _ H)) as FA.
+  destruct (free st (s_id sb)) as [st0 [b|e]]; cbn [fst snd] in *; [|exact W0].
+  specialize (FA (ex_intro _ b eq_refl)). destruct H0 as [T0 NI0 NF0 A0].
+  assert (Fi0 : ~ In (s_inst sb) (map s_inst (syms st0))).
+  { intros I. apply Fi. apply in_map_iff in I. destruct I as [s [Es Is]]. apply in_map_iff. exists s. split; [exact Es|]. apply FS in Is. tauto. }
+  assert (T2 : TI (linked_state st0 sb)).
+  { apply add_TI; auto. intros s n Is. apply NFr; [apply FS in Is; tauto|]. intros E. apply FA. rewrite <- E. apply in_map. exact Is. }
+  pose proof (add_wb st0 sb T0 NI0 NF0 A0 FA Fi0 Ff T2 W0) as W3.
+  destruct (load (linked_state st0 sb) sb) as [st3 [e|]]; exact W3.
+Qed.
+
+Lemma close_HW st : HW st -> HW (fst (close_table st)).
+Proof.
+  intros T. unfold close_table.
+  assert (G : forall ids acc, HW (fst acc) ->
+    HW (fst (fold_left (fun (acc : tstate * tres) (id : nat) =>
+      match snd acc with
+      | TFail _ => acc
+      | TDone _ => match free (fst acc) id with (st', TFail e) => (st', TFail e) | (st', TDone _) => (st', TDone true) end
+      end) ids acc))).
+  { induction ids as [|id ids IH]; intros acc Ta; cbn [fold_left]; [exact Ta|]. apply IH.
+    destruct (snd acc); [|exact Ta]. pose proof (free_HW (fst acc) id Ta) as F. destruct (free (fst acc) id) as [st' [b|e]]; exact F. }
+  apply G. exact T.
+Qed.
+
+(* For every instance, along every well-formed history whose flows succeed: a load notification is only ever sent while
+   the instance is inactive, an unload notification only while it is active - so its notifications alternate, starting
+   with a load. *)
+Theorem notifications_alternate ops : wf2_from t_init ops -> wb (events (t_run ops)).
+Proof.
+  intros W. assert (G : HW (t_run ops)); [|apply G].
+  unfold t_run. assert (I0 : HW t_init) by (split; [apply HI_init|]; intros p e q E; destruct p; discriminate).
+  revert W I0. generalize t_init. induction ops as [|op ops IH]; intros st W T; cbn [fold_left]; [exact T|].
+  destruct W as [O W]. apply IH; [exact W|]. unfold t_step, t_step_res. destruct op as [sb|id|].
+  - apply insert_HW; assumption.
+  - apply free_HW; assumption.
+  - apply close_HW; assumption.
+Qed.
